@@ -46,10 +46,15 @@ try:
     nf = [f for f in fs if (f.get('finding') or '') not in open_ids]
     print(sid, prop, 'caught=%d' % len(nf), (nf[0]['msg'][:110].replace('\n', ' ') if nf else 'MISSED-BY-HARNESS'))
 except Exception as e:
-    print(sid, prop, 'NO-SUMMARY', e)
+    try: log = open(w + '/out/log', errors='replace').read()
+    except Exception: log = ''
+    if 'panic:' in log or 'fatal error:' in log:
+        print(sid, prop, 'caught=crash (the harness process was stopped; the check reports it with no-failing-input-found)', log[log.find('panic:'):][:120].replace('\n', ' '))
+    else:
+        print(sid, prop, 'NO-SUMMARY', e)
 PY
   git -C /repo worktree remove --force $W/repo >/dev/null 2>&1
-  rm -rf $W
+  [ -n "$KEEP_REG" ] || rm -rf $W
 }
 export -f one
 printf '%s\n' $ids | xargs -P $par -I{} bash -c 'one {}'
